@@ -89,6 +89,26 @@ MISSED_AT_FIRST = {
  "C13-12": "a refused start was only followed by pid(); the restart family now has a refusal (with and without a deadline) as one of the failed attempts, is run by C13, and behaviours whose failed attempt was a refusal are attributed to C13",
  "C17-11": "the stream family had no child that ends while a descendant keeps its streams (exit status collected, streams still open); added for one start option",
  "C19-11": "start() was never given a null argument vector; added (it must stay start(): fork = false, argv passed on as it is)",
+ "C01-13": "no child was ever stopped; a stopped (and later continued) child added to the status family, the simulated waitpid reports it to a waiter that asks (WUNTRACED); an exit status reported while the child has not ended is attributed to C01",
+ "C01-14": "a reap that fails with 'no child' was never injected; the fault-anywhere sweep now fails waitpid with ECHILD every other time and requires that the wait / stop it strikes reports an error, never a status; that family is run by C01",
+ "C02-13": "pipes in packet mode (pipe2 with O_DIRECT) behaved like ordinary pipes in the simulated kernel; packet mode implemented (a read takes one packet, the rest of it is gone)",
+ "C02-14": "found by the free-running mode only, where the rejection was attributed to the stop properties; the stream family now has a stop followed by reads",
+ "C03-13": "the change uses fchdir() and opens a directory: both outside the seam (infrastructure error, no verdict); emulated now, and the env family's working-directory points are also taken by a caller without stdin / stdout",
+ "C05-13": "the fault sweep's scenarios all had the caller's standard descriptors open; those that open files of their own are now also run without stdin",
+ "C08-13": "a race on a process-wide clock sample: only the thread test sees it, and C08 did not run it; it does now (races in clock / deadline code are attributed to C08)",
+ "C09-14": "an allocation failure inside poll was injected (fault-anywhere sweep) but only the bookkeeping was judged; the call struck by the fault and its result are now recorded and a poll must answer 'out of memory'; family run by C09",
+ "C10-13": "no stream was given by its member only next to a shorthand; added to the wiring family",
+ "C10-14": "the change uses stat(), outside the seam (infrastructure error, no verdict), and no path named a FIFO; stat family emulated, a FIFO path added for every stream (simulated kernel only)",
+ "C11-13": "no descriptor beyond 4096 exists in the simulated kernel; what IS covered is the refusal under an unlimited table, which the change turns into a clamp - found by the env family, now run by and attributed to C11",
+ "C11-14": "every inherited descriptor had a live peer; a hung-up pipe end added to the caller's descriptors (sim and real)",
+ "C12-13": "no caller ignored SIGCHLD; added (program found / missing), with the kernel's own reaping emulated - the expected result of the failing start is then 'no child', as on the real kernel",
+ "C14-13": "caught by the restart family only; it is now run by C14 and its behaviours are attributed to C14 too",
+ "C15-13": "a race on a static copy of the stop actions: only the thread test sees it, and C15 did not run it; it does now",
+ "C16-13": "the run family had no discarding sinks on piped streams; added",
+ "C17-14": "the change uses fcntl(F_SETPIPE_SZ), an unsupported form in the simulated kernel (infrastructure error, no verdict); supported now (growing beyond the system maximum is refused)",
+ "C19-13": "the C++-only `timeout` member was never set; added (it must reach no C option)",
+ "C19-14": "every wrapper point was a single call and the mock accepted a missing handle; a second start after a refused one added, and the mock answers a NULL handle like the C API",
+ "C20-14": "the thread test asked for the texts of known error values only; values the system has no message for added",
  "C18-10": "NOT CAUGHT: needs another thread changing the parent's environment block between two snapshots inside one start; the threaded mode of the Windows driver gives every thread its own parent block",
 }
 
